@@ -71,8 +71,25 @@ parameters [0] ECParameters {{ NamedCurve }} OPTIONAL, publicKey [1] BIT STRING 
 def ecPrivateKey (d : Bytes) (curveOid : List Nat) (point : Bytes) : Asn1 :=
   .seq [.int 1, .octets d, .ctx 0 (.oid curveOid), .ctx 1 (.bits 0 point)]
 
-/-- RFC 5958 §2: `OneAsymmetricKey ::= SEQUENCE { version Version, privateKeyAlgorithm AlgorithmIdentifier,
-privateKey OCTET STRING (the DER of ECPrivateKey), … }` as the library writes it (version 1, no optional fields) -/
+/-- RFC 5915 §3 with the optional fields left open: `opts` is what follows `privateKey` (nothing, `[0] parameters`,
+`[1] publicKey`, or both) -/
+def ecPrivateKeyG (d : Bytes) (opts : List Asn1) : Asn1 := .seq (.int 1 :: .octets d :: opts)
+
+/-- RFC 5958 §2 in general: `OneAsymmetricKey ::= SEQUENCE { version Version, privateKeyAlgorithm
+PrivateKeyAlgorithmIdentifier, privateKey OCTET STRING, attributes [0] OPTIONAL, …, [[2: publicKey [1] OPTIONAL]], … }` with
+`Version ::= INTEGER { v1(0), v2(1) }`; `tail` = the optional fields after `privateKey`, `opts` = the optional fields of
+the embedded ECPrivateKey.  RFC 5958: "if publicKey is present, then version is set to v2 else version is set to v1";
+an RFC-conforming writer without top-level publicKey (e.g. OpenSSL) therefore writes `version = 0`. -/
+def oneAsymmetricKeyG (version : Nat) (d : Bytes) (curveOid : List Nat) (opts tail : List Asn1) : Asn1 :=
+  .seq (.int version :: .seq [.oid id_ecPublicKey, .oid curveOid] :: .octets (ecPrivateKeyG d opts).enc :: tail)
+
+/-- **what the library writes** for `format="pkcs8"`: `oneAsymmetricKeyG` with `version = 1` (v2), the embedded
+ECPrivateKey carrying `[0] namedCurve` and `[1] publicKey`, and NO top-level optional field.  This is canonical DER of
+the OneAsymmetricKey *syntax*, but it deviates from the version rule of RFC 5958 §2 (v2 is for files that carry the
+top-level `publicKey [1]`; without it the version should be v1 = 0, which is what OpenSSL writes) — the comment in
+keys.py ("version = 1 means the public key is not present in the top-level structure") has the rule backwards.  The
+deviation is recorded here and reported to the coordinator; the loader accepts both versions
+(`C09.loads_independent_encoding_pkcs8`). -/
 def oneAsymmetricKey (d : Bytes) (curveOid : List Nat) (point : Bytes) : Asn1 :=
   .seq [.int 1, .seq [.oid id_ecPublicKey, .oid curveOid], .octets (ecPrivateKey d curveOid point).enc]
 
